@@ -612,6 +612,14 @@ func Gosched() {
 		return
 	}
 	k.step(KGosched)
+	if k.cfg.Sched == SchedPCT {
+		// the runtime's scheduler is fair to a goroutine that yields: everybody else that can run
+		// gets a turn before it. Under PCT two tasks that spin with Gosched (writers waiting for a
+		// reader slot to drain) would otherwise hand the processor to each other for ever and
+		// starve the lower-priority task they are waiting for
+		k.cur.prio = k.pctLow
+		k.pctLow--
+	}
 	k.reschedule(true)
 }
 
